@@ -9,7 +9,7 @@ LEAN_MODULES = ['XmlDiffModel.Props.C04', 'XmlDiffModel.Props.Replay']
 SOURCES = ['utils.getpath', 'diff.Differ.diff', 'diff.Differ.align_children', 'patch.Patcher']
 RULE = "Differ cluster: U1 compares utils.getpath of every node and lxml xpath hit lists (also for paths with dropped / shifted indices) with the model's getpath / count-based resolve; the oracle replays the real script action by action under the strict semantics (every path must select exactly one node, last step indexed). Non-trivial = script has >= 2 action types or a move."
 ASSUMPTIONS = [
-    "documents of the namespace-free C01 domain (elements, attributes, text, tails, comments); namespaced documents are exercised by the oracle streams only",
+    "documents of the C01 domain; namespaced documents (stream nsm) are compared with the model too, the step name of a Clark-notation tag being the prefix the working copy uses for its URI; only the namespace prologue (InsertNamespace / DeleteNamespace, prefix registration) is outside the model and exercised by the oracle stream ns",
     "similarity values (difflib.SequenceMatcher, sqrt) are an oracle recorded from the real node_ratio for every comparable pair",
 ]
-_cluster.make(sys.modules[__name__], 'C04', {'U1','U2','U5','E2E'}, [('main',3500),('wide',300),('ns',800)], [('main',60000),('simple',20000),('wide',5000),('ns',20000)])
+_cluster.make(sys.modules[__name__], 'C04', {'U1','U2','U5','E2E'}, [('main',3500),('wide',300),('ns',800),('nsm',600)], [('nsm',12000),('main',60000),('simple',20000),('wide',5000),('ns',20000)])
